@@ -144,6 +144,11 @@ def thread_scenarios(tier):
             prep=[sb('outer', [bf('d/a', ch=[bf('d/b')])])],
             threads=[[sb('outer', [bf('d/a', ch=[bf('d/b')])])], [bf('d/b', tag='other function')]]),
     }
+    # both threads validate the same cached build_file record (which has recorded queries and a nested record)
+    S['T5b_cached_duplicate_build_file_with_children'] = dict(
+        t0=[['w', 'i', 'A']], prep=[bf('d/a', ch=[{'o': 'q', 'kind': 'read', 'p': 'i'}, bf('d/b')])],
+        threads=[[bf('d/a', ch=[{'o': 'q', 'kind': 'read', 'p': 'i'}, bf('d/b')])],
+                 [bf('d/a', ch=[{'o': 'q', 'kind': 'read', 'p': 'i'}, bf('d/b')])]])
     # the racing calls are made inside a subbuild, so a rejected call becomes part of a written record
     S['T10_rejected_reuse_inside_a_parent_record'] = dict(
         prep=[sb('outer', [bf('d/a', ch=[bf('d/b')])])],
@@ -168,6 +173,24 @@ def thread_scenarios(tier):
     if tier != 'quick':
         S['T9_three_threads_same_subbuild'] = dict(threads=[[sb('s')], [sb('s')], [sb('s')]])
     return S
+
+
+def forest_records(forest):
+    """key -> set of canonical records, for every record that is neither raised nor a setup failure."""
+    out = {}
+    if not isinstance(forest, dict):
+        return out
+
+    def walk(nodes):
+        for c in nodes:
+            n = json.loads(c)
+            if n.get('type') in ('build_file', 'subbuild'):
+                if not n.get('raised') and not n.get('setupFailed'):
+                    k = json.dumps([n['type'], n.get('filename'), n.get('funcName'), n.get('args'), n.get('kwargs')], sort_keys=True)
+                    out.setdefault(k, set()).add(c)
+                walk(n.get('sub', []))
+    walk(forest.get('roots', []))
+    return out
 
 
 def acceptable(o, seqs):
@@ -238,6 +261,21 @@ def acceptable(o, seqs):
             return False
     if o.get('tree3') not in [s['tree3'] for s in seq] or o.get('clean') != 'ok':
         return False
+    # 'without disturbing the ... cache record of the first call': every successful record of the committed
+    # cache file is, node for node, the record that some sequential execution writes for the same key
+    mine = forest_records(o.get('cache_forest'))
+    theirs = {}
+    for s_ in seq:
+        for k, v in forest_records(s_.get('cache_forest')).items():
+            theirs.setdefault(k, set()).update(v)
+    for k, recs in mine.items():
+        for c in recs:
+            rv = json.dumps(json.loads(c).get('returnValue'), sort_keys=True)
+            same_result = {t for t in theirs.get(k, set()) if json.dumps(json.loads(t).get('returnValue'), sort_keys=True) == rv}
+            # (a record whose *result* no sequential order produces - the caller of a reuse-implied
+            # rejection - is judged by the clauses above, not node for node)
+            if same_result and c not in same_result:
+                return False
     if isinstance(o.get('rebuild'), str) and o['rebuild'].startswith('EXC'):
         return False
     return True
